@@ -1,4 +1,285 @@
-(* C11 — placeholder while the proofs are being written *)
+(* C11 — memories behave as arrays of rows under any port configuration.
+   Only statements here; the model is Model/Mem.v, proofs are in Proofs/MemP.v.
+
+   Model (follows the simulator): `mem_step md st ev` — md = row shape, depth, write ports (domain, width of the
+   enable word), read ports (domain or comb, transparent_for as write-port indices in the given order, init of the
+   data signal); st = committed rows + data signal of every read port + current read-port inputs; ev =
+   `EStep doms wi ri` (port inputs wi/ri, then the clocks of the listed domains rise in ONE ctx.set, each with the
+   level of its reset; the processes run in the order of the list) or `ETbSet i v` (ctx.set(mem.data[i], v)).
+   Specification: `spec_step` — an array of rows; all writes of the ports whose clock rises are applied to the
+   addressed rows in PORT order, `spec_write_row` replaces the enabled granules; no write queue, no process order.
+
+   Every theorem quantifies over ALL shapes (wf_shape: unsigned width >= 0, signed width >= 1), depths >= 0, port
+   lists (wf_wport: the enable width divides the data width), states satisfying wf_state (all reachable states do:
+   C11_reachable_states_wf), port inputs (arbitrary integers) and events.
+   ev_ok = the domains of an event are distinct and no two write ports of DIFFERENT domains that are clocked by the
+   event write a common bit of the same existing row (S1: that case is order dependent, see
+   C11_cross_domain_collision_order_dependent; hardware/RTLIL leave it undefined). *)
 From Coq Require Import ZArith List Bool.
 From V.Model Require Import Bits Mem.
 From V.Proofs Require Import MemP.
+Import ListNotations.
+Open Scope Z_scope.
+
+(* ------------------------------------------------------------------ a concrete instance of the hypotheses *)
+(* 5 rows of unsigned(8); write ports: domain 0 with 4 enable bits, domain 1 with 1, domain 0 with 2;
+   read ports: domain 0 transparent for ports 2 and 0, comb, domain 1 *)
+Definition ex_md : memd :=
+  MD (Sh 8 false) 5 [WP 0 4; WP 1 1; WP 0 2] [RP (Some 0) [2%nat; 0%nat] 0; RP None [] 0; RP (Some 1) [] 0].
+Definition ex_wi (l : list win) : nat -> win := fun j => nth j l (WI 0 0 0).
+Definition ex_ri (l : list rin) : nat -> rin := fun j => nth j l (RI 0 0).
+Definition ex_evs : list event :=
+  [ EStep [(0, false); (1, false)] (ex_wi [WI 1 171 5; WI 2 7 1; WI 1 255 2]) (ex_ri [RI 1 1; RI 2 0; RI 2 1]);
+    ETbSet 4 (-3);
+    EStep [(1, true); (0, false)] (ex_wi [WI 3 1 15; WI 3 240 0; WI 7 9 3]) (ex_ri [RI 3 0; RI 4 0; RI 9 0]) ].
+
+Example ex_hypotheses : wf_md ex_md = true /\ forallb (ev_ok ex_md) ex_evs = true.
+Proof. vm_compute. split; reflexivity. Qed.
+
+(* ------------------------------------------------------------------ refinement *)
+(* one event, from any well-formed state *)
+Theorem C11_step_refines_array md st ev : wf_md md = true -> wf_state md st -> ev_ok md ev = true ->
+  mem_step md st ev = spec_step md st ev.
+Proof. exact (step_refines md st ev). Qed.
+Print Assumptions C11_step_refines_array.
+
+(* any event sequence from the declared initial contents: rows, read data and inputs coincide *)
+Theorem C11_memory_refines_array md init evs : wf_md md = true -> forallb (ev_ok md) evs = true ->
+  mem_run md (init_state md init) evs = spec_run md (init_state md init) evs.
+Proof. intros Hmd Hok. apply run_refines; auto. apply init_state_wf; auto. Qed.
+Print Assumptions C11_memory_refines_array.
+
+Theorem C11_reachable_states_wf md init evs : wf_md md = true -> forallb (ev_ok md) evs = true ->
+  wf_state md (mem_run md (init_state md init) evs).
+Proof. intros Hmd Hok. apply run_wf; auto. apply init_state_wf; auto. Qed.
+Print Assumptions C11_reachable_states_wf.
+
+(* an event that clocks one domain satisfies ev_ok whatever the inputs are *)
+Theorem C11_single_domain_event_ok md d rst wi ri : ev_ok md (EStep [(d, rst)] wi ri) = true.
+Proof. exact (single_domain_ok md d rst wi ri). Qed.
+Print Assumptions C11_single_domain_event_ok.
+
+(* ------------------------------------------------------------------ write ports *)
+(* meaning of spec_write_row: bit i of the new row comes from the data iff enable bit i / g is set *)
+Theorem C11_written_row_bits s g n en d old i : wf_shape s = true -> 0 < g -> g * Z.of_nat n = width s ->
+  0 <= i < width s ->
+  Z.testbit (spec_write_row s g n en d old) i = if Z.testbit en (i / g) then Z.testbit d i else Z.testbit old i.
+Proof. exact (spec_write_row_bits s g n en d old i). Qed.
+Print Assumptions C11_written_row_bits.
+
+Example ex_written_row : spec_write_row (Sh 8 false) 2 4 5 171 255 = 239.
+Proof. vm_compute. reflexivity. Qed.
+
+(* all clocked write ports together: row a becomes the old row with the requested writes applied in port order *)
+Theorem C11_rows_after_step md st doms wi ri a : wf_md md = true -> wf_state md st ->
+  ev_ok md (EStep doms wi ri) = true -> in_depth (md_depth md) a = true ->
+  nth (Z.to_nat a) (st_rows (mem_step md st (EStep doms wi ri))) 0 =
+  spec_apply (md_shape md) (spec_writes (all_sacts md wi) doms) a (nth (Z.to_nat a) (st_rows st) 0).
+Proof. intros Hmd Hst. exact (rows_after_step md st Hmd Hst doms wi ri a). Qed.
+Print Assumptions C11_rows_after_step.
+
+(* write_port_spec: if exactly one of the clocked ports addresses row a, its enabled granules are replaced *)
+Theorem C11_write_port_spec md st doms wi ri a l1 l2 enw en d : wf_md md = true -> wf_state md st ->
+  ev_ok md (EStep doms wi ri) = true -> in_depth (md_depth md) a = true ->
+  spec_writes (all_sacts md wi) doms = l1 ++ (a, enw, en, d) :: l2 ->
+  (forall t, In t (l1 ++ l2) -> saddr t <> a) ->
+  nth (Z.to_nat a) (st_rows (mem_step md st (EStep doms wi ri))) 0 =
+  spec_write_row (md_shape md) (granularity (md_width md) enw) (Z.to_nat enw) en d (nth (Z.to_nat a) (st_rows st) 0).
+Proof. intros Hmd Hst. exact (write_port_sole md st Hmd Hst doms wi ri a l1 l2 enw en d). Qed.
+Print Assumptions C11_write_port_spec.
+
+Example ex_write_port_hyp :
+  let e := EStep [(0, false)] (ex_wi [WI 1 171 5; WI 2 7 1; WI 3 255 2]) (ex_ri []) in
+  ev_ok ex_md e = true /\ in_depth 5 1 = true /\
+  spec_writes (all_sacts ex_md (ex_wi [WI 1 171 5; WI 2 7 1; WI 3 255 2])) [(0, false)] = [] ++ (1, 4, 5, 171) :: [(3, 2, 2, 255)].
+Proof. vm_compute. repeat split; reflexivity. Qed.
+
+(* ... and every row no clocked port addresses is unchanged *)
+Theorem C11_write_frame md st doms wi ri a : wf_md md = true -> wf_state md st ->
+  ev_ok md (EStep doms wi ri) = true -> in_depth (md_depth md) a = true ->
+  (forall t, In t (spec_writes (all_sacts md wi) doms) -> saddr t <> a) ->
+  nth (Z.to_nat a) (st_rows (mem_step md st (EStep doms wi ri))) 0 = nth (Z.to_nat a) (st_rows st) 0.
+Proof. intros Hmd Hst. exact (write_frame md st Hmd Hst doms wi ri a). Qed.
+Print Assumptions C11_write_frame.
+
+(* writes to addresses beyond the depth change nothing *)
+Theorem C11_write_beyond_depth_no_change md st doms wi ri : wf_md md = true -> wf_state md st ->
+  ev_ok md (EStep doms wi ri) = true ->
+  (forall t, In t (spec_writes (all_sacts md wi) doms) -> md_depth md <= saddr t) ->
+  st_rows (mem_step md st (EStep doms wi ri)) = st_rows st.
+Proof. intros Hmd Hst. exact (write_beyond_depth md st Hmd Hst doms wi ri). Qed.
+Print Assumptions C11_write_beyond_depth_no_change.
+
+Example ex_beyond_depth_hyp :
+  spec_writes (all_sacts ex_md (ex_wi [WI 5 1 15; WI 6 2 1; WI 7 3 3])) [(0, false); (1, false)] =
+  [(5, 4, 15, 1); (6, 1, 1, 2); (7, 2, 3, 3)] /\ ev_ok ex_md (EStep [(0, false); (1, false)] (ex_wi [WI 5 1 15; WI 6 2 1; WI 7 3 3]) (ex_ri [])) = true.
+Proof. vm_compute. split; reflexivity. Qed.
+
+(* same-domain collisions: an event of ONE domain (no hypothesis on the inputs): the last port in port order that
+   addresses row a is applied last, i.e. the later port wins on every granule both write *)
+Theorem C11_same_domain_collision_port_order md st d rst wi ri a l enw en dd : wf_md md = true -> wf_state md st ->
+  in_depth (md_depth md) a = true ->
+  spec_writes (all_sacts md wi) [(d, rst)] = l ++ [(a, enw, en, dd)] ->
+  nth (Z.to_nat a) (st_rows (mem_step md st (EStep [(d, rst)] wi ri))) 0 =
+  spec_write_row (md_shape md) (granularity (md_width md) enw) (Z.to_nat enw) en dd
+                 (spec_apply (md_shape md) l a (nth (Z.to_nat a) (st_rows st) 0)).
+Proof.
+  intros Hmd Hst Ha Hw.
+  exact (collision_port_order md st Hmd Hst [(d, rst)] wi ri a l enw en dd (single_domain_ok md d rst wi ri) Ha Hw).
+Qed.
+Print Assumptions C11_same_domain_collision_port_order.
+
+Example ex_same_domain_collision :
+  spec_writes (all_sacts ex_md (ex_wi [WI 1 171 15; WI 1 7 1; WI 1 255 2])) [(0, true)] = [(1, 4, 15, 171)] ++ [(1, 2, 2, 255)] /\
+  st_rows (mem_step ex_md (init_state ex_md [1; 2; 3]) (EStep [(0, true)] (ex_wi [WI 1 171 15; WI 1 7 1; WI 1 255 2]) (ex_ri []))) = [1; 251; 3; 0; 0].
+Proof. vm_compute. split; reflexivity. Qed.
+
+(* the same for several domains under ev_ok *)
+Theorem C11_collision_port_order md st doms wi ri a l enw en dd : wf_md md = true -> wf_state md st ->
+  ev_ok md (EStep doms wi ri) = true -> in_depth (md_depth md) a = true ->
+  spec_writes (all_sacts md wi) doms = l ++ [(a, enw, en, dd)] ->
+  nth (Z.to_nat a) (st_rows (mem_step md st (EStep doms wi ri))) 0 =
+  spec_write_row (md_shape md) (granularity (md_width md) enw) (Z.to_nat enw) en dd
+                 (spec_apply (md_shape md) l a (nth (Z.to_nat a) (st_rows st) 0)).
+Proof. intros Hmd Hst. exact (collision_port_order md st Hmd Hst doms wi ri a l enw en dd). Qed.
+Print Assumptions C11_collision_port_order.
+
+(* simultaneous edges: the order in which the simulator runs the domains' processes is immaterial under ev_ok *)
+Theorem C11_simultaneous_edge_order_irrelevant md st doms doms' wi ri : wf_md md = true -> wf_state md st ->
+  ev_ok md (EStep doms wi ri) = true -> ev_ok md (EStep doms' wi ri) = true ->
+  (forall d, dom_active doms d = dom_active doms' d) -> (forall d, dom_rst doms d = dom_rst doms' d) ->
+  mem_step md st (EStep doms wi ri) = mem_step md st (EStep doms' wi ri).
+Proof. exact (edge_order_irrelevant md st doms doms' wi ri). Qed.
+Print Assumptions C11_simultaneous_edge_order_irrelevant.
+
+(* S1: without the collision hypothesis the surviving value depends on the order of the processes *)
+Theorem C11_cross_domain_collision_order_dependent :
+  exists md init wi ri,
+    wf_md md = true /\
+    ev_ok md (EStep [(0, false); (1, false)] wi ri) = false /\
+    st_rows (mem_step md (init_state md init) (EStep [(0, false); (1, false)] wi ri)) <>
+    st_rows (mem_step md (init_state md init) (EStep [(1, false); (0, false)] wi ri)).
+Proof.
+  exists (MD (Sh 8 false) 2 [WP 0 1; WP 1 1] []), [], (ex_wi [WI 0 11 1; WI 0 22 1]), (ex_ri []).
+  vm_compute. repeat split; try reflexivity. discriminate.
+Qed.
+Print Assumptions C11_cross_domain_collision_order_dependent.
+
+(* ------------------------------------------------------------------ read ports *)
+(* all cases of a read port after a step *)
+Theorem C11_read_data_after_step md st doms wi ri j p : wf_md md = true -> wf_state md st ->
+  ev_ok md (EStep doms wi ri) = true -> nth_error (md_rports md) j = Some p ->
+  nth j (st_rdata (mem_step md st (EStep doms wi ri))) 0 =
+  let a := mask (md_abits md) (ri_addr (ri j)) in
+  match rp_dom p with
+  | None => spec_read md (st_rows (mem_step md st (EStep doms wi ri))) a
+  | Some d =>
+      if dom_active doms d then
+        if Z.odd (ri_en (ri j))
+        then spec_apply (md_shape md) (spec_transp (all_sacts md wi) (rp_transp p)) a (spec_read md (st_rows st) a)
+        else if dom_rst doms d then rp_init p else nth j (st_rdata st) 0
+      else nth j (st_rdata st) 0
+  end.
+Proof. intros Hmd Hst. exact (rdata_after_step md st Hmd Hst doms wi ri j p). Qed.
+Print Assumptions C11_read_data_after_step.
+
+(* async_read_spec: a comb port shows the addressed row of the contents AFTER the event (port writes or testbench write) *)
+Theorem C11_async_read_spec md st doms wi ri j p : wf_md md = true -> wf_state md st ->
+  ev_ok md (EStep doms wi ri) = true -> nth_error (md_rports md) j = Some p -> rp_dom p = None ->
+  nth j (st_rdata (mem_step md st (EStep doms wi ri))) 0 =
+  spec_read md (st_rows (mem_step md st (EStep doms wi ri))) (mask (md_abits md) (ri_addr (ri j))).
+Proof. intros Hmd Hst. exact (async_read md st Hmd Hst doms wi ri j p). Qed.
+Print Assumptions C11_async_read_spec.
+
+Theorem C11_async_read_after_row_write md st i v j p : wf_md md = true -> wf_state md st ->
+  nth_error (md_rports md) j = Some p -> rp_dom p = None ->
+  nth j (st_rdata (mem_step md st (ETbSet i v))) 0 =
+  spec_read md (st_rows (mem_step md st (ETbSet i v))) (mask (md_abits md) (ri_addr (st_rin st j))).
+Proof. intros Hmd Hst. exact (async_read_tb md st Hmd Hst i v j p). Qed.
+Print Assumptions C11_async_read_after_row_write.
+
+(* sync_read_spec: an enabled non-transparent port captures the row as it was BEFORE the edge's writes *)
+Theorem C11_sync_read_spec md st doms wi ri j p d : wf_md md = true -> wf_state md st ->
+  ev_ok md (EStep doms wi ri) = true -> nth_error (md_rports md) j = Some p -> rp_dom p = Some d ->
+  dom_active doms d = true -> Z.odd (ri_en (ri j)) = true -> rp_transp p = [] ->
+  nth j (st_rdata (mem_step md st (EStep doms wi ri))) 0 =
+  spec_read md (st_rows st) (mask (md_abits md) (ri_addr (ri j))).
+Proof. intros Hmd Hst. exact (sync_read_pre_edge md st Hmd Hst doms wi ri j p d). Qed.
+Print Assumptions C11_sync_read_spec.
+
+(* transparent_read_spec: the pre-edge row with the writes of the transparency set's ports (those addressing the
+   same row; their enabled granules) applied, in transparent_for order *)
+Theorem C11_transparent_read_spec md st doms wi ri j p d : wf_md md = true -> wf_state md st ->
+  ev_ok md (EStep doms wi ri) = true -> nth_error (md_rports md) j = Some p -> rp_dom p = Some d ->
+  dom_active doms d = true -> Z.odd (ri_en (ri j)) = true ->
+  nth j (st_rdata (mem_step md st (EStep doms wi ri))) 0 =
+  spec_apply (md_shape md) (spec_transp (all_sacts md wi) (rp_transp p)) (mask (md_abits md) (ri_addr (ri j)))
+             (spec_read md (st_rows st) (mask (md_abits md) (ri_addr (ri j)))).
+Proof. intros Hmd Hst. exact (transparent_read md st Hmd Hst doms wi ri j p d). Qed.
+Print Assumptions C11_transparent_read_spec.
+
+Example ex_transparent_read :
+  let st' := mem_step ex_md (init_state ex_md [1; 2; 3])
+               (EStep [(0, false)] (ex_wi [WI 1 171 1; WI 2 7 1; WI 1 255 2]) (ex_ri [RI 1 1; RI 1 0; RI 1 1])) in
+  st_rdata st' = [243; 243; 0] /\ st_rows st' = [1; 243; 3; 0; 0].
+Proof. vm_compute. split; reflexivity. Qed.
+
+(* remark: when two ports of the transparency set write a common granule of the row being read (a same-domain
+   collision), the captured value follows transparent_for order while the stored row follows port order, so they
+   can differ (here transparent_for = (w2, w0), both write bits 4-5 of row 1) *)
+Theorem C11_transparent_collision_follows_transparent_for_order :
+  exists wi ri,
+    let st' := mem_step ex_md (init_state ex_md [1; 2; 3]) (EStep [(0, false)] wi ri) in
+    ev_ok ex_md (EStep [(0, false)] wi ri) = true /\
+    nth 0 (st_rdata st') 0 = 227 /\ nth 1 (st_rows st') 0 = 243.
+Proof.
+  exists (ex_wi [WI 1 171 5; WI 2 7 1; WI 1 255 2]), (ex_ri [RI 1 1; RI 1 0; RI 1 1]).
+  vm_compute. repeat split; reflexivity.
+Qed.
+Print Assumptions C11_transparent_collision_follows_transparent_for_order.
+
+(* read_hold_spec: a port whose clock does not rise, or that is disabled while its domain's reset is low, holds *)
+Theorem C11_read_hold_spec md st doms wi ri j p d : wf_md md = true -> wf_state md st ->
+  ev_ok md (EStep doms wi ri) = true -> nth_error (md_rports md) j = Some p -> rp_dom p = Some d ->
+  dom_active doms d = false \/ (Z.odd (ri_en (ri j)) = false /\ dom_rst doms d = false) ->
+  nth j (st_rdata (mem_step md st (EStep doms wi ri))) 0 = nth j (st_rdata st) 0.
+Proof. intros Hmd Hst. exact (read_hold md st Hmd Hst doms wi ri j p d). Qed.
+Print Assumptions C11_read_hold_spec.
+
+Theorem C11_read_hold_over_row_write md st i v j p d : wf_md md = true -> wf_state md st ->
+  nth_error (md_rports md) j = Some p -> rp_dom p = Some d ->
+  nth j (st_rdata (mem_step md st (ETbSet i v))) 0 = nth j (st_rdata st) 0.
+Proof. intros Hmd Hst. exact (read_hold_tb md st Hmd Hst i v j p d). Qed.
+Print Assumptions C11_read_hold_over_row_write.
+
+(* finding: with the domain's (synchronous) reset asserted a DISABLED read port does not hold in the simulator —
+   its data signal is loaded with the init value; the $memrd_v2 cell emitted for it has no reset (SRST = 0) and holds *)
+Theorem C11_read_hold_under_reset_refuted :
+  exists md init e1 e2 j,
+    wf_md md = true /\ forallb (ev_ok md) [e1; e2] = true /\
+    (match e2 with EStep doms wi ri => Z.odd (ri_en (ri j)) = false /\ dom_rst doms 0 = true | _ => False end) /\
+    nth j (st_rdata (mem_run md (init_state md init) [e1; e2])) 0 <>
+    nth j (st_rdata (mem_run md (init_state md init) [e1])) 0.
+Proof.
+  exists (MD (Sh 8 false) 4 [] [RP (Some 0) [] 0]), [5; 6; 7; 8],
+         (EStep [(0, false)] (ex_wi []) (ex_ri [RI 1 1])), (EStep [(0, true)] (ex_wi []) (ex_ri [RI 1 0])), 0%nat.
+  vm_compute. repeat split; try reflexivity. discriminate.
+Qed.
+Print Assumptions C11_read_hold_under_reset_refuted.
+
+(* ------------------------------------------------------------------ testbench row access: the same storage *)
+(* ctx.set(mem.data[i], v) then ctx.get(mem.data[a]) *)
+Theorem C11_row_access_same_storage md st i v a : wf_md md = true -> wf_state md st ->
+  in_depth (md_depth md) a = true ->
+  tb_get md (mem_step md st (ETbSet i v)) a = if a =? i then norm (md_shape md) v else tb_get md st a.
+Proof. intros Hmd Hst. exact (tb_set_get md st Hmd Hst i v a). Qed.
+Print Assumptions C11_row_access_same_storage.
+
+(* port writes are seen by ctx.get(mem.data[a]) (and testbench writes by the ports: C11_async_read_after_row_write,
+   C11_sync_read_spec read st_rows, the storage ETbSet writes) *)
+Theorem C11_row_read_after_port_write md st doms wi ri a : wf_md md = true -> wf_state md st ->
+  ev_ok md (EStep doms wi ri) = true -> in_depth (md_depth md) a = true ->
+  tb_get md (mem_step md st (EStep doms wi ri)) a =
+  spec_apply (md_shape md) (spec_writes (all_sacts md wi) doms) a (tb_get md st a).
+Proof. intros Hmd Hst. exact (tb_get_after_port_write md st Hmd Hst doms wi ri a). Qed.
+Print Assumptions C11_row_read_after_port_write.
